@@ -33,7 +33,7 @@ impl HuffmanCode {
 
         let mut bits = Vec::with_capacity(values.len());
         let mut next_code = 0u64;
-        let mut prev_len = lengths[0];
+        let mut prev_len = lengths.first().copied().unwrap_or(0);
         for &len in &lengths {
             let shift_len = 64 - len;
             if len != prev_len {
@@ -73,6 +73,13 @@ impl Bundle for HuffmanCode {
             let x = bitstream.read_u32(0, 1, 2 + U(3), U(8))?;
             sum_counts += x;
             *count = x as u8;
+        }
+        // There is no code of length 0, and the last value is the end marker: at least one value.
+        if counts[0] != 0 || sum_counts == 0 {
+            tracing::error!(counts0 = counts[0], sum_counts, "Invalid Huffman code");
+            return Err(jxl_bitstream::Error::ValidationFailed(
+                "invalid Huffman code in JPEG reconstruction data",
+            ));
         }
         let values = (0..sum_counts)
             .map(|_| {
